@@ -3,10 +3,6 @@
 // stored under that option's name (unit initopts), or the plugin refuses to start (a panic of
 // from_value on a value of another type; an error when no such option was registered).  Panics are
 // refusals here (implicit tag REFUSAL is no property), like in specs/initopts.rs. ----------------
-impl Clone for Value {
-    #[verifier::external_body]
-    fn clone(&self) -> (r: Self) ensures r == *self { unimplemented!() }
-}
 //@ fn options::OptionType::from_value
 //@ returns r
 //@ end
